@@ -691,6 +691,51 @@ def run(chk):
         if m < 2:
             raise mir.AnchorMissing("into_points impls (found %d)" % m)
         return True, "", ev
+    def terminal_record():
+        """The terminal writer's record carries what the property calls faithful output, wherever the event has it: on every path the rendered message
+        (`evt.msg().write(..)`) followed by a newline; behind the `Some` edge of `evt.extent()` a timestamp taken from that extent, before the
+        message; behind the `Some` edge of the module's first segment that segment, before the message; and `Writer::emit` prints the buffer
+        it rendered into."""
+        b = P.body("emit_term::write_event")
+        msg = [c for c in b.calls(normal_only=True) if c.callee.get("name") == "write" and c.args and mir.o_is_call(b.origin(c.args[0]), name="msg")]
+        if len(msg) != 1 or not b.must_pass({msg[0].bb}):
+            return False, "the terminal record does not contain the rendered message on every path", [], b.span
+        nl = [c for c in b.calls(normal_only=True) if c.callee.get("name") == "write_plain" and len(c.args) > 1 and mir.o_const_value(b.origin(c.args[1])) == "\n"
+              and b.dominates(msg[0].bb, c.bb)]
+        if not nl or not b.must_pass({c.bb for c in nl}):
+            return False, "the message line of the terminal record is not terminated by a newline on every path", [], msg[0].loc
+        def some_edge(call_name):
+            for bb, t in b.switches():
+                so = b.switch_origin(bb)
+                if so[0] == "discr" and mir.o_is_call(so[1], name=call_name):
+                    return bb, [n for v, n in t["targets"] if str(v) == "1"], so[1][1]
+            return None
+        ext = some_edge("extent")
+        if ext is None:
+            raise mir.AnchorMissing("the test of evt.extent() in the terminal writer")
+        ts = {c.bb for c in b.calls(normal_only=True) if c.callee.get("name") == "write_timestamp" and len(c.args) > 1 and
+              any(k == "callsite" and v == ext[2].bb for k, v in common.roots(b.origin(c.args[1])))}
+        if not ts or not all(b.must_pass(ts, start=n, ends={msg[0].bb}) for n in ext[1]):
+            return False, "an event that has an extent can reach its message line without a timestamp taken from that extent having been written", [], b.span
+        seg = some_edge("next")
+        if seg is None:
+            raise mir.AnchorMissing("the test of the module's first segment in the terminal writer")
+        md = {c.bb for c in b.calls(normal_only=True) if c.callee.get("name") in ("write_fg", "write_plain", "try_write_fg") and len(c.args) > 1 and
+              any(k == "callsite" and v == seg[2].bb for k, v in common.roots(b.origin(c.args[1])))}
+        if not md or not all(b.must_pass(md, start=n, ends={msg[0].bb}) for n in seg[1]):
+            return False, "an event's module can be left out of the terminal record", [], b.span
+        w = P.body("emit_term::Writer::emit")
+        ok = False
+        for x in [w] + P.closures_of(w):
+            we = [c for c in x.calls(normal_only=True) if (c.callee.get("path") or "") == "emit_term::write_event"]
+            pr = [c for c in x.calls(normal_only=True) if c.callee.get("name") == "print"]
+            if we and pr and x.dominates(we[0].bb, pr[0].bb) and mir.o_root(x.origin(we[0].args[0])) == mir.o_root(x.origin(pr[0].args[1])):
+                ok = True
+        if not ok:
+            return False, "Writer::emit does not print the buffer write_event rendered into", [], w.span
+        return True, "", [msg[0].loc] + sorted("%s" % c.loc for c in b.calls(normal_only=True) if c.bb in ts | md)
+    chk.ob("C13.R9:terminal-record", "the terminal record has the message line, and the timestamp and module of every event that carries them", terminal_record)
+
     def metric_seq_flag():
         """The metric value extractor takes a flat sequence of numbers (one data point each) and nothing nested: `seq_begin` fails when a sequence is
         already open and otherwise marks one open on every path; `seq_end` clears the mark.  Without the mark (or the failure) a sequence of
